@@ -600,6 +600,38 @@ make_stored(unsigned char *dst, const unsigned char *data, size_t n)
         memcpy(dst + 5, data, n);
         return n + 5;
 }
+/* a fixed-Huffman block: 10 literals, a 258-byte match at distance 300 (reaching before the start of the output), 64 literals, end of block */
+static size_t
+make_bad_lookback(unsigned char *dst)
+{
+        uint32_t bitpos = 0;
+        int i;
+#define PUTB(v, n)                                                                                 \
+        do {                                                                                       \
+                int i_;                                                                            \
+                for (i_ = 0; i_ < (n); i_++, bitpos++)                                             \
+                        if (((v) >> i_) & 1)                                                       \
+                                dst[bitpos >> 3] |= 1 << (bitpos & 7);                             \
+        } while (0)
+#define PUTH(code, n)                                                                              \
+        do {                                                                                       \
+                int j_;                                                                            \
+                for (j_ = (n) - 1; j_ >= 0; j_--)                                                  \
+                        PUTB(((code) >> j_) & 1, 1);                                               \
+        } while (0)
+        memset(dst, 0, 128);
+        PUTB(1, 1);
+        PUTB(1, 2);
+        for (i = 0; i < 10; i++)
+                PUTH(0x30 + 'A' + i, 8);
+        PUTH(0xC0 + 5, 8); /* symbol 285: length 258 */
+        PUTH(16, 5);       /* distance symbol 16: 257.. with 7 extra bits */
+        PUTB(43, 7);       /* distance 300 */
+        for (i = 0; i < 64; i++)
+                PUTH(0x30 + 'a' + i % 26, 8);
+        PUTH(0, 7);
+        return (bitpos + 7) / 8 + 16;
+}
 struct obs {
         unsigned char b[9000];
         size_t n;
@@ -662,7 +694,7 @@ inflate_reuse(FILE *o)
         n_rs = make_stored(raw_stored, E, 1500);
         memset(bad, 0xff, sizeof(bad));
         bad[0] = 0x07; /* BTYPE 3 */
-        for (b = 0; b < 6; b++)
+        for (b = 0; b < 7; b++)
                 for (h = 0; h < 10; h++) {
                         struct inflate_state *st = malloc(sizeof(*st));
                         struct isal_gzip_header gh;
@@ -815,6 +847,22 @@ inflate_reuse(FILE *o)
                                 st->crc_flag = ISAL_ZLIB;
                                 inflate_rest(st, z_plain, n_zp, 1000, 4000, &ob);
                                 break;
+                        case 6: { /* an invalid stream (a match reaching before the start of the output), plenty of room: the error code, what the call
+                                   * reports as produced and the bytes it hands over must not depend on what the context decoded before */
+                                static unsigned char badl[160], o6[4096];
+                                size_t nb = make_bad_lookback(badl);
+                                memset(o6, 0, sizeof(o6));
+                                st->next_in = badl;
+                                st->avail_in = nb;
+                                st->next_out = o6;
+                                st->avail_out = sizeof(o6);
+                                r = isal_inflate(st);
+                                put32(&ob, (uint32_t) r);
+                                put32(&ob, (uint32_t) (sizeof(o6) - st->avail_out));
+                                put32(&ob, st->total_out);
+                                put(&ob, o6, 600);
+                                break;
+                        }
                         }
                         sprintf(name, "inflate-use%d-history%d", b, h);
                         dump(o, name, ob.b, ob.n, 0);
